@@ -18,7 +18,7 @@ ASAN = 'small_sse_cache_seq_asan'
 ALG_REASONS = {'result', 'frame', 'stray', 'crash', 'unexpected_die', 'die_touched', 'unknown_op'}
 
 
-BOUND_OPS = {'ple', 'pluq', '_ple', '_pluq', '_ple_naive', '_pluq_naive', '_ple_russian', '_pluq_russian', 'echelonize_m4ri', 'echelonize_pluq', 'find_pivot',
+BOUND_OPS = {'ple', 'pluq', '_ple', '_pluq', '_ple_naive', '_pluq_naive', '_ple_russian', '_pluq_russian', 'echelonize_m4ri', 'top_echelonize_m4ri', 'echelonize_pluq', 'find_pivot',
              'solve_left', '_solve_left', 'kernel_left_pluq'}
 
 
@@ -679,7 +679,7 @@ def run_property(prop, tier, seed):
                     if ev['op'] in BOUND_OPS and ev.get('o') and not ev.get('die'):
                         o0 = ev['o'][0]
                         if o0['m'] * o0['n'] <= 10000 or (job.cfg.startswith('tiny') and o0['m'] * o0['n'] <= 350 * 270):
-                            skip = (ev['op'] == 'echelonize_m4ri' and ev['p'].get('k', 0) < 1) or (ev['op'] == 'echelonize_pluq' and ev['p'].get('full') == 1) \
+                            skip = (ev['op'] in ('echelonize_m4ri', 'top_echelonize_m4ri') and ev['p'].get('k', 0) < 1) or (ev['op'] == 'echelonize_pluq' and ev['p'].get('full') == 1) \
                                 or (ev['op'] in ('solve_left', '_solve_left') and ev.get('ret') != 0)
                             if not skip:
                                 nbound[ev['op']] = nbound.get(ev['op'], 0) + 1
